@@ -324,3 +324,83 @@ func constName(c *Ctx, pkg string, k *ssa.Const) string {
 	}
 	return ""
 }
+
+func init() {
+	Register(&Rule{ID: "R-TXN-10", Props: []string{"C01", "C20"}, Floor: 1,
+		Doc: "the auto-committing entry point is not re-entered from inside a transaction: the function in which the AutoCommit-gated commit lives ((*Processor).Execute) is not reachable, through static calls and closures, from (*Processor).ExecuteStatement — statements that run other statements (SOURCE, EXECUTE, IF, WHILE, functions) use the internal executor, otherwise every such statement would commit pending changes, release the locks and empty the view cache in the middle of the transaction",
+		Run: ruleTxn10})
+}
+
+// staticReach: functions reachable from fn through statically resolved calls,
+// go/defer operands and closures created along the way.
+func staticReach(fn *ssa.Function) map[*ssa.Function][]*ssa.Function {
+	parent := map[*ssa.Function][]*ssa.Function{fn: nil}
+	queue := []*ssa.Function{fn}
+	for len(queue) > 0 {
+		f := queue[0]
+		queue = queue[1:]
+		if f.Blocks == nil {
+			continue
+		}
+		add := func(g *ssa.Function) {
+			if g == nil {
+				return
+			}
+			if _, ok := parent[g]; !ok {
+				parent[g] = append(append([]*ssa.Function(nil), parent[f]...), f)
+				queue = append(queue, g)
+			}
+		}
+		for _, call := range core.Calls(f) {
+			add(call.Common().StaticCallee())
+		}
+		for _, af := range f.AnonFuncs {
+			add(af)
+		}
+	}
+	return parent
+}
+
+func ruleTxn10(c *Ctx) {
+	stmt := c.Fn("lib/query.(*Processor).ExecuteStatement")
+	if stmt == nil {
+		return
+	}
+	// the auto-committing entry points: functions that read Transaction.AutoCommit and reach Commit
+	var entries []*ssa.Function
+	for _, fn := range c.P.FuncsIn(false, "lib/query") {
+		reads := false
+		for _, b := range fn.Blocks {
+			for _, in := range b.Instrs {
+				if fa, ok := in.(*ssa.FieldAddr); ok && core.FieldOwner(fa) == "lib/query.Transaction.AutoCommit" {
+					for _, r := range *fa.Referrers() {
+						if u, ok := r.(*ssa.UnOp); ok && u.Op == token.MUL {
+							reads = true
+						}
+					}
+				}
+			}
+		}
+		if reads {
+			entries = append(entries, fn)
+		}
+	}
+	if len(entries) == 0 {
+		c.Unknown("auto-commit entry point", "-", "cannot-analyse: no function of lib/query reads Transaction.AutoCommit any more")
+		return
+	}
+	reach := staticReach(stmt)
+	for _, e := range entries {
+		key := c.P.Name(e) + ": not re-entered from ExecuteStatement"
+		if path, ok := reach[e]; ok && e != stmt {
+			var names []string
+			for _, f := range path {
+				names = append(names, short2(c.P.Name(f)))
+			}
+			names = append(names, short2(c.P.Name(e)))
+			c.Bad(key, c.FnPos(e), "a statement reaches the auto-committing entry point: "+strings.Join(names, " → ")+" — with AutoCommit set (every non-interactive run) this commits the pending changes, releases all locks and clears the view cache in the middle of the transaction")
+			continue
+		}
+		c.Ok(key, c.FnPos(e), "reads Transaction.AutoCommit and is only entered from outside the statement interpreter")
+	}
+}
